@@ -352,6 +352,14 @@ def run(chk):
         pairs = coq_list([f"({zlit(t)}, {j})" for j, t in enumerate(ts)])
         add(f"let d := dyn_of Z Z Z.leb {pairs} in fst d ++ snd d", got_t + got_f, {"kind": "MeanFieldDynamics.add", "times": ts, "systems": nsys},
             ("mfdyn", tuple(ts), nsys))
+        # the whole record against the model of the object (Model/TimeGrid.v mfd_of: own time/field lists, one Dynamics per system,
+        # each with its own insertion index): times ++ fields ++ (times_q ++ states_q for every system q)
+        rows = coq_list([f"(({zlit(t)}, {j}), {coq_list([str(j + 100 * q) for q in range(nsys)])})" for j, t in enumerate(ts)])
+        flat = got_t + got_f
+        for sd in mfd.system_dynamics:
+            flat += [int(round(t * 4)) for t in sd.times] + [int(round(s_[0, 0].real)) for s_ in sd.states]
+        add(f"let m := mfd_of Z Z Z Z.leb {rows} in fst (fst m) ++ snd (fst m) ++ flat_map (fun d => fst d ++ snd d) (snd m)", flat,
+            {"kind": "MeanFieldDynamics.add (whole record)", "times": ts, "systems": nsys}, ("mfdrec", tuple(ts), nsys))
         chk.count("MeanFieldDynamics.add")
 
     # ---- (d) tcut <-> dkmax, PtTebd.time ---------------------------------------------------
